@@ -42,6 +42,7 @@ Ok(e) == CASE e.ev = "Table"    -> TableOk(e)
            [] e.ev = "Het"      -> HetOk(e)
            [] e.ev = "Oaat"     -> OaatOk(e)
            [] e.ev = "Wrap"     -> WrapOk(e)
+           [] e.ev = "HashB"    -> HashOk(e)          \* byte-level / SIMD entry points: same reference
            [] e.ev = "Reset"    -> TRUE
            [] OTHER             -> Assert(FALSE, <<"unknown event", e>>)
 
